@@ -45,6 +45,8 @@ type c19Case struct {
 	ScanNextAfter bool `json:"scan_next_after,omitempty"`
 	// Log: the client's logger ("" discards unevaluated; json / text: Debug-level slog handlers that marshal every attribute)
 	Log string `json:"log,omitempty"`
+	// CloseErr: closing a connection succeeds but reports an error (as a TLS connection may)
+	CloseErr bool `json:"close_err,omitempty"`
 	// ReleaseFirst: release the gate before (true) or after (false) Close runs -
 	// e.g. the dial completes just before or just after
 	ReleaseAfterMS int `json:"release_after_ms"`
@@ -98,13 +100,17 @@ func c19RunInBubble(c c19Case) (out Outcome) {
 		park = newParkingHandler("looked up a region")
 		copts = append(copts, gohbase.Logger(slog.New(park)))
 	}
-	if c.Point == "stalled" {
-		// small pipes to the regionservers: a server that stops reading blocks the client's writer at once
+	if c.Point == "stalled" || c.CloseErr {
 		cl.ConnOptions = func(addr string, k int) memconn.Options {
-			if addr != "rs1:16020" {
-				return memconn.Options{Cap: 16}
+			var o memconn.Options
+			if c.Point == "stalled" && addr != "rs1:16020" {
+				// small pipes to the regionservers: a server that stops reading blocks the client's writer at once
+				o.Cap = 16
 			}
-			return memconn.Options{}
+			if c.CloseErr {
+				o.CloseErr = errors.New("tls: failed to send closeNotify alert (but connection was closed anyway)")
+			}
+			return o
 		}
 	}
 	client := newSimClient(cl, copts...)
@@ -513,6 +519,7 @@ func c19Gen(t *rapid.T) c19Case {
 	}
 	c.Warm = rapid.Bool().Draw(t, "warm")
 	c.Log = rapid.SampledFrom([]string{"", "", "", "json", "text"}).Draw(t, "log")
+	c.CloseErr = rapid.IntRange(0, 3).Draw(t, "closeerr") == 0
 	if c.Point == "idle" || c.Point == "multistop" || c.Point == "stalled" {
 		c.Warm = true
 	}
@@ -569,7 +576,7 @@ func TestC19_Close(t *testing.T) {
 			"held, dialer entered and held (before/during dial), region probe held, retry back-off, dial refused "+
 			"repeatedly, ZooKeeper answering every lookup with an error (before and after Close), a connection given up because a multi-response "+
 			"carried a server-stopped exception (and replaced by another one), regionservers that stopped reading so that the connections' writers are blocked in Write with the callers' requests, a region just looked up in hbase:meta and not yet being established (the looking-up goroutine parked "+
-			"at the client's own debug message through a harness-supplied logger) - with or without previously established connections, optionally with a scanner left open mid-region "+
+			"at the client's own debug message through a harness-supplied logger) - with or without previously established connections, optionally over connections whose Close reports an error although it closes, optionally with a scanner left open mid-region "+
 			"(with or without a lease renewer); then Close runs (once, twice, or twice "+
 			"concurrently) and 0/1/10/500 virtual ms later the awaited event happens (the dial completes, ZooKeeper "+
 			"answers...). Oracle: Close takes zero virtual time; every in-flight call returns within 100 virtual ms "+
